@@ -146,7 +146,7 @@ def _expand(task):
                                 (v.clause, v.detail, v.features)))
                     continue
                 except Pruned as exc:
-                    out.append(('pruned', hist, op, str(exc)))
+                    out.append(('pruned', hist, op, (str(exc), dict(ctx.hits))))
                     continue
                 k = digest(driver.key(ctx))
                 out.append(('ok', hist, op,
@@ -241,7 +241,10 @@ def explore(driver, rep, part=None, max_depth=None, max_states=None,
                                       list(hist) + [op], params)
                         continue
                     if kind == 'pruned':
-                        pruned[data] += 1
+                        # (what the transition exercised before the branch
+                        # was closed still counts as exercised)
+                        pruned[data[0]] += 1
+                        hits.update(data[1])
                         continue
                     k, obs, h = data
                     obs_seen.add(obs)
